@@ -94,6 +94,9 @@ class Engine(StmtMixin):
                     ps.env["out"] = T("list", s.out)
                     for idx, cl in enumerate(c.yields):
                         self.oblige(s, f"yields#{idx}", self.truthy(self.ev1(c.parsed(cl), ps)), cl)
+                    ps.env["result"] = T("V", U.con("VGen", s.out, U.none))
+                    for idx, cl in enumerate(c.ensures):
+                        self.oblige(s, f"post#{idx}", self.truthy(self.ev1(c.parsed(cl), ps)), cl)
                 else:
                     ps.env["result"] = val
                     for idx, cl in enumerate(c.ensures):
@@ -108,6 +111,10 @@ class Engine(StmtMixin):
                 self.oblige(s, "raises", goal, f"only {allowed} may escape")
                 for ecls, cond in c.raises_iff:
                     self.oblige(s, f"raises-iff:{ecls}:raised", z3.Implies(U.isinstance_exc(p, ecls), self.truthy(self.ev1(c.parsed(cond), ps))), cond)
+                if is_gen:
+                    ps.env["result"] = T("V", U.con("VGen", s.out if s.out is not None else z3.Empty(U.SeqV), p))
+                    for idx, cl in enumerate(c.ensures):
+                        self.oblige(s, f"post#{idx}", self.truthy(self.ev1(c.parsed(cl), ps)), cl)
             else:
                 raise Unsupported("break/continue escaping function body")
         return self.obligations, {"exits": exits, "paths": len(outs), "callees": sorted(self.used_contracts)}
